@@ -92,6 +92,8 @@ pub enum Error {
     MissingRequiredInlineDatumOrHash,
     #[error("redeemer points to an unsupported certificate type")]
     UnsupportedCertificateType,
+    #[error("certificate type not representable in a PlutusV1/V2 script context")]
+    UnsupportedCertificateInLegacyContext,
     #[error("failed script execution\n{:>13} {}", format!("{}[{}]", tag, index), err)]
     RedeemerError {
         tag: String,
